@@ -11,7 +11,7 @@
 //   pts-continuation   PTS_k - PTS_j of a track = sum of the signed steps the generator applied
 //   late-track         start PTS of a later track within 2 ticks of (leadPTS/leadRate + elapsed) * rate
 //   ntp-roundtrip      Decode(Encode(t)) in {t, t-1ns}, seconds field not disturbed by the fraction;
-//                      Encode(Decode(v)) within 5 units of 2^-32 s
+//                      Encode(Decode(v)) within 4 units of 2^-32 s; Encode's fraction within 1/2 + 10^-6 of exact
 //   packet-ntp         PacketNTP(ts) - (T0 + (ts-r0)/rate) in [-2ns, 1 tick + 2ns] (+0.001 tick float slack)
 package main
 
@@ -283,6 +283,15 @@ func ntpCase(ctx *hx.Ctx, t int64) {
 	if back != t && back != t-1 {
 		ctx.Failf(idx, "ntp-roundtrip", c.String(), "Decode(Encode(%d)) = %d", t, back)
 	}
+	// the rounding contract the NTP theorems assume of Encode's float division:
+	// |frac*1e9 - (t mod 1e9)*2^32| <= 1e9/2 + 1000
+	{
+		e := new(big.Int).Mul(big.NewInt(int64(v&0xFFFFFFFF)), big.NewInt(1000000000))
+		e.Sub(e, new(big.Int).Lsh(big.NewInt(t%1000000000), 32))
+		if e.Abs(e).Cmp(big.NewInt(500001000)) > 0 {
+			ctx.Failf(idx, "ntp-fraction-contract", c.String(), "Encode(%d): fraction %d is %s/1e9 units away from the exact quotient", t, v&0xFFFFFFFF, e)
+		}
+	}
 	if int64(v>>32) != t/1000000000+ntpOffset {
 		ctx.Failf(idx, "ntp-roundtrip", c.String(), "Encode(%d): seconds field %d, want %d (fraction carried)", t, v>>32, t/1000000000+ntpOffset)
 	}
@@ -297,7 +306,7 @@ func ntpDecodeCase(ctx *hx.Ctx, v uint64) {
 	ctx.Eval()
 	v2 := ntp.Encode(back)
 	d := int64(v2 - v)
-	if d < -5 || d > 5 {
+	if d < -4 || d > 4 {
 		ctx.Failf(idx, "ntp-roundtrip", c.String(), "Encode(Decode(%d)) = %d (off by %d units of 2^-32 s)", v, v2, d)
 	}
 }
@@ -490,17 +499,17 @@ func main() {
 		ctx.Nontrivial(cl)
 		oracleGD(ctx, idx, ops, res, cl)
 	}
-	nn := ctx.Budget(60000, 1000000)
+	nn := ctx.Budget(40000, 1000000)
 	for i := 0; i < nn; i++ {
 		ntpCase(ctx, ntpInstant(r))
 	}
 	ctx.Kind("ntp encode+decode")
-	for i := 0; i < ctx.Budget(20000, 300000); i++ {
+	for i := 0; i < ctx.Budget(15000, 300000); i++ {
 		sec := uint64(ntpOffset) + r.U64()%uint64(4294967296-ntpOffset)
 		ntpDecodeCase(ctx, sec<<32|uint64(uint32(r.U64())))
 	}
 	ctx.Kind("ntp decode+encode")
-	nc := ctx.Budget(40000, 600000)
+	nc := ctx.Budget(30000, 600000)
 	for i := 0; i < nc; i++ {
 		runChain(ctx, genChain(r))
 	}
